@@ -70,7 +70,6 @@ static void run_case(const std::string& cid, Toks& t) {
         int f = A->partition->first_local_row, ln = A->local_num_rows;
         std::vector<int> lagg(ln); std::vector<double> B(ln); int na = 0;
         for (int i = 0; i < ln; i++) { lagg[i] = agg[f + i]; B[i] = Bg[f + i]; if (lagg[i] == f + i) na++; }
-        if (tap) A->tap_comm = new TAPComm(A->partition, A->off_proc_column_map, A->on_proc_column_map);
         std::vector<double> R;
         ParCSRMatrix* T = fit_candidates(A, na, lagg, B, R, 1, tap != 0, 1e-10);
         std::ostringstream o;
